@@ -637,6 +637,7 @@ def create_tree_likelihood(id_, taxa, alignment, arg):
             branch_model = create_branch_model(
                 branch_model_id, tree_id, len(taxa["taxa"]), arg, rate_init
             )
+            branch_model_id = branch_model["id"]
 
         like_list = []
         for tag, indices, t, b, w in zip(
